@@ -282,6 +282,10 @@ def do_check(args, prop, tier, scratch, t_start):
   findings = kernel.load_known_findings()
   mine, cross, known_printed = [], [], []
   for r in all_results:
+    for c in r.get('cross', []) or []:
+      cross.append({'property': c.get('property'), 'oracle': c.get('oracle'),
+                    'leg': r.get('_leg'), 'seed': r.get('seed'),
+                    'message': str(c.get('message', ''))[:200]})
     for v in r.get('violations', []):
       v = dict(v)
       v['_leg'] = r.get('_leg')
